@@ -2,6 +2,10 @@ import Polyseed.Props.C13
 /-!
 # C20 — concurrent use of distinct seeds from several threads is race-free (model part)
 
+`thread_serial`: in EVERY interleaving each thread observes exactly the results of a serial execution of its own
+calls (other threads make no global calls and the threads' seed objects are distinct), by induction over the
+interleaving from `step_local` (locality), `step_agree` (pointwise congruence) and `step_untouched` (frame).
+
 The model has exactly three pieces of state: the injected-dependency table, the feature mask and the seed
 blocks.  Once injection and feature configuration are done, a call reads the first two and touches only the
 seed it is given or the fresh block it obtains (`C13.frame`).  The writable-symbol inventory (S-syms) checks
@@ -83,5 +87,323 @@ theorem globals_unchanged (cfg : Cfg) (env : Env) (lib : Lib) (op : Op) (w : Wor
 theorem other_thread_frame (cfg : Cfg) (env : Env) (lib : Lib) (op : Op) (w : World) (hinv : C15.Inv lib w)
     (x : Nat) (d : Data) (hx : lib.get x = some d) (hne : C13.target op ≠ some x) :
     (step cfg env lib op w).lib.get x = some d := C13.frame cfg env lib op w hinv x d hx hne
+
+
+
+/-- the seeds a call is given -/
+def handles : Op → List Nat
+  | .free (some b) => [b]
+  | .encode h _ _ => [h]
+  | .keygen h _ _ => [h]
+  | .store h => [h]
+  | .crypt h _ => [h]
+  | .getBirthday h => [h]
+  | .getFeature h _ => [h]
+  | .isEncrypted h => [h]
+  | _ => []
+
+/-- **locality**: what a call returns, which dependency calls it makes and which oracle answers it consumes
+depend on the library state only through the injected-dependency table, the feature mask and the seeds it is given. -/
+theorem step_local (cfg : Cfg) (env : Env) (deps : Deps) (reserved : Nat) (heap1 heap2 : List (Nat × Data)) (op : Op) (w : World)
+    (hget : ∀ h ∈ handles op, (Lib.mk deps reserved heap1).get h = (Lib.mk deps reserved heap2).get h) :
+    (step cfg env ⟨deps, reserved, heap1⟩ op w).out = (step cfg env ⟨deps, reserved, heap2⟩ op w).out ∧
+    (step cfg env ⟨deps, reserved, heap1⟩ op w).events = (step cfg env ⟨deps, reserved, heap2⟩ op w).events ∧
+    (step cfg env ⟨deps, reserved, heap1⟩ op w).w = (step cfg env ⟨deps, reserved, heap2⟩ op w).w := by
+  cases op with
+  | inject d => exact ⟨rfl, rfl, rfl⟩
+  | enable m => exact ⟨rfl, rfl, rfl⟩
+  | create f =>
+    simp only [step, create, doAlloc]
+    repeat' split
+    all_goals exact ⟨rfl, rfl, rfl⟩
+  | free hd =>
+    cases hd with
+    | none => exact ⟨rfl, rfl, rfl⟩
+    | some b =>
+      have := hget b (by simp [handles])
+      simp only [step, this]
+      cases (Lib.mk deps reserved heap2).get b <;> exact ⟨rfl, rfl, rfl⟩
+  | encode hh li coin =>
+    have := hget hh (by simp [handles])
+    simp only [step, this]
+    cases (Lib.mk deps reserved heap2).get hh <;> exact ⟨rfl, rfl, rfl⟩
+  | keygen hh coin n =>
+    have := hget hh (by simp [handles])
+    simp only [step, this]
+    cases (Lib.mk deps reserved heap2).get hh <;> exact ⟨rfl, rfl, rfl⟩
+  | store hh =>
+    have := hget hh (by simp [handles])
+    simp only [step, this]
+    cases (Lib.mk deps reserved heap2).get hh <;> exact ⟨rfl, rfl, rfl⟩
+  | crypt hh pw =>
+    have := hget hh (by simp [handles])
+    simp only [step, this]
+    cases (Lib.mk deps reserved heap2).get hh <;> exact ⟨rfl, rfl, rfl⟩
+  | getBirthday hh =>
+    have := hget hh (by simp [handles])
+    simp only [step, this]
+    cases (Lib.mk deps reserved heap2).get hh <;> exact ⟨rfl, rfl, rfl⟩
+  | getFeature hh m =>
+    have := hget hh (by simp [handles])
+    simp only [step, this]
+    cases (Lib.mk deps reserved heap2).get hh <;> exact ⟨rfl, rfl, rfl⟩
+  | isEncrypted hh =>
+    have := hget hh (by simp [handles])
+    simp only [step, this]
+    cases (Lib.mk deps reserved heap2).get hh <;> exact ⟨rfl, rfl, rfl⟩
+  | load buf =>
+    simp only [step, load, doAlloc]
+    repeat' split
+    all_goals exact ⟨rfl, rfl, rfl⟩
+  | decode s coin =>
+    simp only [step, decode, decodeFinish, decompose, doAlloc, decodeWipes, detectWipe, freeEvents]
+    repeat' split
+    all_goals exact ⟨rfl, rfl, rfl⟩
+  | decodeExplicit s coin li =>
+    simp only [step, decodeExplicit, decodeFinish, decompose, doAlloc, decodeWipes, freeEvents, langAt]
+    repeat' split
+    all_goals exact ⟨rfl, rfl, rfl⟩
+
+theorem alloc_answer (cfg : Cfg) (lib : Lib) (w : World) :
+    (doAlloc cfg lib w).1 = w.allocs.headD none := by
+  unfold doAlloc; split <;> simp_all
+
+/-- **pointwise congruence**: if two library states with the same globals agree on the seeds a call is given,
+then after the call they still agree at every block where they agreed before. -/
+theorem step_agree (cfg : Cfg) (env : Env) (deps : Deps) (reserved : Nat) (heap1 heap2 : List (Nat × Data)) (op : Op) (w : World)
+    (hget : ∀ h ∈ handles op, (Lib.mk deps reserved heap1).get h = (Lib.mk deps reserved heap2).get h)
+    (x : Nat) (hx : (Lib.mk deps reserved heap1).get x = (Lib.mk deps reserved heap2).get x) :
+    (step cfg env ⟨deps, reserved, heap1⟩ op w).lib.get x = (step cfg env ⟨deps, reserved, heap2⟩ op w).lib.get x := by
+  have hp : ∀ b d, (Lib.put ⟨deps, reserved, heap1⟩ b d).get x = (Lib.put ⟨deps, reserved, heap2⟩ b d).get x := by
+    intro b d; rw [Lib.get_put, Lib.get_put, hx]
+  cases op with
+  | inject d => exact hx
+  | enable m => exact hx
+  | create f =>
+    simp only [step, create, doAlloc]
+    repeat' split
+    all_goals first | exact hx | exact hp _ _
+  | free hd =>
+    cases hd with
+    | none => exact hx
+    | some b =>
+      have := hget b (by simp [handles])
+      simp only [step, this]
+      cases (Lib.mk deps reserved heap2).get b with
+      | none => exact hx
+      | some d => simp only [free]; rw [Lib.get_del, Lib.get_del, hx]
+  | encode hh li coin =>
+    have := hget hh (by simp [handles])
+    simp only [step, this]
+    cases (Lib.mk deps reserved heap2).get hh <;> exact hx
+  | keygen hh coin n =>
+    have := hget hh (by simp [handles])
+    simp only [step, this]
+    cases (Lib.mk deps reserved heap2).get hh <;> exact hx
+  | store hh =>
+    have := hget hh (by simp [handles])
+    simp only [step, this]
+    cases (Lib.mk deps reserved heap2).get hh <;> exact hx
+  | crypt hh pw =>
+    have hh' := hget hh (by simp [handles])
+    simp only [step, hh']
+    cases hg : (Lib.mk deps reserved heap2).get hh with
+    | none => exact hx
+    | some d =>
+      simp only [crypt, decompose]
+      rw [Lib.get_update, Lib.get_update, hx, hh']
+  | getBirthday hh =>
+    have := hget hh (by simp [handles])
+    simp only [step, this]
+    cases (Lib.mk deps reserved heap2).get hh <;> exact hx
+  | getFeature hh m =>
+    have := hget hh (by simp [handles])
+    simp only [step, this]
+    cases (Lib.mk deps reserved heap2).get hh <;> exact hx
+  | isEncrypted hh =>
+    have := hget hh (by simp [handles])
+    simp only [step, this]
+    cases (Lib.mk deps reserved heap2).get hh <;> exact hx
+  | load buf =>
+    simp only [step, load, doAlloc]
+    repeat' split
+    all_goals first | exact hx | exact hp _ _
+  | decode s coin =>
+    simp only [step, decode, decodeFinish, decompose, doAlloc]
+    repeat' split
+    all_goals first | exact hx | exact hp _ _
+  | decodeExplicit s coin li =>
+    simp only [step, decodeExplicit, decodeFinish, decompose, doAlloc, langAt]
+    repeat' split
+    all_goals first | exact hx | exact hp _ _
+
+
+/-- the block the allocator will hand out to this call, if any -/
+def nextId (w : World) : Option Nat := (w.allocs.headD none).map (·.1)
+
+/-- a call leaves every block alone that it is not given and that is not the fresh block it obtains -/
+theorem step_untouched (cfg : Cfg) (env : Env) (lib : Lib) (op : Op) (w : World) (x : Nat)
+    (hh : x ∉ handles op) (hn : nextId w ≠ some x) : (step cfg env lib op w).lib.get x = lib.get x := by
+  have hp : ∀ b junk e w1 d, doAlloc cfg lib w = (some (b, junk), e, w1) → (lib.put b d).get x = lib.get x := by
+    intro b junk e w1 d ha
+    have := alloc_answer cfg lib w
+    rw [ha] at this
+    have hb : x ≠ b := by
+      intro h; apply hn; unfold nextId; rw [← this]; simp [h]
+    rw [Lib.get_put]; simp [hb]
+  have hfin : ∀ idx coin lo pre, (decodeFinish cfg lib idx coin lo pre w).lib.get x = lib.get x := by
+    intro idx coin lo pre
+    cases hc : polyCheck (applyCoin idx coin)
+    · rw [decodeFinish_checksum hc]
+    · rcases ha : doAlloc cfg lib w with ⟨_ | ⟨b, junk⟩, e, w1⟩
+      · rw [decodeFinish_memory hc ha]
+      · cases hs : featuresSupported lib.reserved (polyToData (applyCoin idx coin)).features
+        · rw [decodeFinish_unsupported hc ha hs]
+        · rw [decodeFinish_ok hc ha hs]; exact hp b junk e w1 _ ha
+  cases op with
+  | inject d => rfl
+  | enable m => rfl
+  | create f =>
+    simp only [step]
+    rcases create_cases cfg lib f w with ⟨_, e⟩ | ⟨_, ⟨ev, w1, ha, e⟩ | ⟨b, junk, ev, w1, ha, e⟩⟩
+    · rw [e]
+    · rw [e]
+    · rw [e]; exact hp b junk ev w1 _ ha
+  | free hd =>
+    cases hd with
+    | none => rfl
+    | some b =>
+      simp only [step]
+      cases lib.get b with
+      | none => rfl
+      | some d =>
+        simp only [free]; rw [Lib.get_del]
+        have : x ≠ b := fun h => hh (by simp [handles, h])
+        simp [this]
+  | encode h li coin => simp only [step]; cases lib.get h <;> rfl
+  | decode s coin =>
+    simp only [step, decode]
+    split
+    · rfl
+    · split
+      · rfl
+      · exact hfin _ _ _ _
+  | decodeExplicit s coin li =>
+    simp only [step, decodeExplicit]
+    split
+    · rfl
+    · split
+      · rfl
+      · exact hfin _ _ _ _
+  | keygen h coin n => simp only [step]; cases lib.get h <;> rfl
+  | store h => simp only [step]; cases lib.get h <;> rfl
+  | load buf =>
+    simp only [step]
+    rcases ha : doAlloc cfg lib w with ⟨_ | ⟨b, junk⟩, e, w1⟩
+    · rw [load_memory ha]
+    · rcases dataLoad_cases buf with hl | ⟨d, hl⟩
+      · rw [load_format ha hl]
+      · cases hc : polyCheck (d.checksum :: dataToPoly d)
+        · rw [load_checksum ha hl hc]
+        · cases hs : featuresSupported lib.reserved d.features
+          · rw [load_unsupported ha hl hc hs]
+          · rw [load_ok ha hl hc hs]; exact hp b junk e w1 _ ha
+  | crypt h pw =>
+    simp only [step]
+    cases lib.get h with
+    | none => rfl
+    | some d =>
+      simp only [crypt]; rw [Lib.get_update]
+      have : x ≠ h := fun hx => hh (by simp [handles, hx])
+      simp [this]
+  | getBirthday h => simp only [step]; cases lib.get h <;> rfl
+  | getFeature h m => simp only [step]; cases lib.get h <;> rfl
+  | isEncrypted h => simp only [step]; cases lib.get h <;> rfl
+
+/-- the globals after a call depend only on the globals before and on the call -/
+theorem step_globals (cfg : Cfg) (env : Env) (deps : Deps) (reserved : Nat) (heap1 heap2 : List (Nat × Data)) (op : Op) (w : World) :
+    (step cfg env ⟨deps, reserved, heap1⟩ op w).lib.deps = (step cfg env ⟨deps, reserved, heap2⟩ op w).lib.deps ∧
+    (step cfg env ⟨deps, reserved, heap1⟩ op w).lib.reserved = (step cfg env ⟨deps, reserved, heap2⟩ op w).lib.reserved := by
+  by_cases hg : Global op
+  · cases op <;> first | exact ⟨rfl, rfl⟩ | exact absurd hg (by simp [Global])
+  · rw [(globals_unchanged cfg env _ op w hg).1, (globals_unchanged cfg env _ op w hg).2,
+      (globals_unchanged cfg env _ op w hg).1, (globals_unchanged cfg env _ op w hg).2]
+    exact ⟨rfl, rfl⟩
+
+/-- outputs of thread `t`'s calls in an interleaved history; every entry carries the oracle answers that call receives -/
+def runT (cfg : Cfg) (env : Env) (t : Nat) : Lib → List (Nat × Op × World) → List Out
+  | _, [] => []
+  | lib, (u, op, w) :: rest =>
+    (if u = t then [(step cfg env lib op w).out] else []) ++ runT cfg env t (step cfg env lib op w).lib rest
+
+/-- outputs of a serial execution -/
+def runS (cfg : Cfg) (env : Env) : Lib → List (Op × World) → List Out
+  | _, [] => []
+  | lib, (op, w) :: rest => (step cfg env lib op w).out :: runS cfg env (step cfg env lib op w).lib rest
+
+/-- thread `t`'s own calls, in order -/
+def mine (t : Nat) (hist : List (Nat × Op × World)) : List (Op × World) :=
+  (hist.filter (fun e => e.1 == t)).map (·.2)
+
+/-- blocks thread `t` ever names as a handle or is ever handed by the allocator -/
+def Owns (calls : List (Op × World)) (x : Nat) : Prop :=
+  ∃ c ∈ calls, x ∈ handles c.1 ∨ nextId c.2 = some x
+
+/-- **Each thread observes exactly the results a serial execution of its own calls would give**, in EVERY
+interleaving, provided the other threads make no injection / feature-configuration calls and neither name nor
+are handed a block of this thread (distinct seed objects; the allocator never hands a live block to two owners). -/
+theorem thread_serial (cfg : Cfg) (env : Env) (t : Nat) :
+    ∀ (hist : List (Nat × Op × World)) (deps : Deps) (reserved : Nat) (hi hs : List (Nat × Data)) (own : Nat → Prop),
+      (∀ x, Owns (mine t hist) x → own x) →
+      (∀ e ∈ hist, e.1 ≠ t → ¬ Global e.2.1 ∧ ∀ x, own x → x ∉ handles e.2.1 ∧ nextId e.2.2 ≠ some x) →
+      (∀ x, own x → (Lib.mk deps reserved hi).get x = (Lib.mk deps reserved hs).get x) →
+      runT cfg env t ⟨deps, reserved, hi⟩ hist = runS cfg env ⟨deps, reserved, hs⟩ (mine t hist) := by
+  intro hist
+  induction hist with
+  | nil => intro _ _ _ _ _ _ _ _; rfl
+  | cons e rest ih =>
+    intro deps reserved hi hs own hown hother hagree
+    obtain ⟨u, op, w⟩ := e
+    by_cases hu : u = t
+    · subst hu
+      have hmine : mine u ((u, op, w) :: rest) = (op, w) :: mine u rest := by simp [mine]
+      have hh : ∀ h ∈ handles op, (Lib.mk deps reserved hi).get h = (Lib.mk deps reserved hs).get h := by
+        intro h hmem
+        exact hagree h (hown h ⟨(op, w), by rw [hmine]; simp, Or.inl hmem⟩)
+      obtain ⟨ho, _, _⟩ := step_local cfg env deps reserved hi hs op w hh
+      obtain ⟨hd, hr⟩ := step_globals cfg env deps reserved hi hs op w
+      simp only [runT, ↓reduceIte, hmine, runS, List.singleton_append, ho]
+      congr 1
+      generalize hL1 : (step cfg env ⟨deps, reserved, hi⟩ op w).lib = L1 at hd hr
+      generalize hL2 : (step cfg env ⟨deps, reserved, hs⟩ op w).lib = L2 at hd hr
+      obtain ⟨d1, r1, h1⟩ := L1
+      obtain ⟨d2, r2, h2⟩ := L2
+      simp only at hd hr
+      subst hd hr
+      apply ih d1 r1 h1 h2 own
+      · intro x hx
+        obtain ⟨c, hc, hcx⟩ := hx
+        exact hown x ⟨c, by rw [hmine]; simp [hc], hcx⟩
+      · intro e he; exact hother e (by simp [he])
+      · intro x hx
+        have := step_agree cfg env deps reserved hi hs op w hh x (hagree x hx)
+        rw [hL1, hL2] at this; exact this
+    · have hmine : mine t ((u, op, w) :: rest) = mine t rest := by
+        simp [mine, hu]
+      obtain ⟨hng, hdis⟩ := hother (u, op, w) (by simp) hu
+      obtain ⟨hd, hr⟩ := globals_unchanged cfg env ⟨deps, reserved, hi⟩ op w hng
+      simp only [runT, hu, ↓reduceIte, List.nil_append, hmine]
+      generalize hL1 : (step cfg env ⟨deps, reserved, hi⟩ op w).lib = L1 at hd hr
+      obtain ⟨d1, r1, h1⟩ := L1
+      simp only at hd hr
+      subst hd hr
+      apply ih _ _ h1 hs own
+      · intro x hx; exact hown x (by rw [hmine]; exact hx)
+      · intro e he; exact hother e (by simp [he])
+      · intro x hx
+        have := step_untouched cfg env ⟨d1, r1, hi⟩ op w x (hdis x hx).1 (hdis x hx).2
+        rw [hL1] at this
+        rw [this]; exact hagree x hx
+
 
 end Polyseed.C20
